@@ -6,6 +6,7 @@ package main
 import (
 	"bytes"
 	"fmt"
+	"regexp"
 	"strings"
 
 	pipeline "github.com/buildkite/go-pipeline"
@@ -200,6 +201,16 @@ func c12TokStr(r *core.Rand) string {
 	if r.Intn(40) == 0 {
 		return "{{matrix.zz}}" // unknown dimension
 	}
+	if r.Intn(40) == 0 {
+		// a dimension other steps of this run use, but not this step's permutation (state carried from one call
+		// to the next would answer it)
+		if c12Mode == 0 {
+			return "on {{matrix.arch}}"
+		}
+		if c12Mode == 1 {
+			return "anon {{matrix}}"
+		}
+	}
 	switch r.Intn(6) {
 	case 0:
 		if c12Mode == 0 {
@@ -257,6 +268,13 @@ func c12StepLevel(c *ctx, rng *core.Rand, _ []*core.Session, n int) error {
 		if err != nil {
 			continue
 		}
+		if rng.Intn(5) == 0 {
+			// the same step with one collection spelled once and used again through plain aliases
+			if ab := renderAliased(rng, []any{stepDoc}); ab != nil {
+				src = ab
+				c.res.Hist("step.aliased-yaml")
+			}
+		}
 		p, perr := pipeline.Parse(bytes.NewReader(src))
 		if p == nil || len(p.Steps) != 1 {
 			continue
@@ -264,6 +282,11 @@ func c12StepLevel(c *ctx, rng *core.Rand, _ []*core.Session, n int) error {
 		_ = perr
 		cs, ok := p.Steps[0].(*pipeline.CommandStep)
 		if !ok {
+			continue
+		}
+		if len(perm) > 0 && (cs.Matrix == nil || cs.Matrix.VerifValidatePermutation(pipeline.MatrixPermutation(perm)) != nil) {
+			// (an alias landed inside the matrix and changed its dimensions: validation is C11's subject)
+			c.res.Hist("step.permutation-not-valid-for-this-matrix")
 			continue
 		}
 		before := dump.Step(cs)
@@ -301,9 +324,22 @@ func c12StepLevel(c *ctx, rng *core.Rand, _ []*core.Session, n int) error {
 			}
 		}
 		c12StepSession.Add(vl.Escape("interpstep "+vl.Enc("m")+" "+vl.Enc(tbl)+" "+vl.Enc(before)), vl.Escape(got))
-		mp := &mapper{f: expand}
+		visited := map[string]bool{}
+		mp := &mapper{f: func(x string) (string, bool) { visited[x] = true; return expand(x) }}
 		want := mp.step(before, true)
 		c.res.OracleChecks++
+		// independent of the library's own transformer (which the expected values above come from): a well-formed
+		// token naming a dimension the permutation lacks, anywhere in scope, makes the call fail
+		if ierr == nil {
+			for _, str := range sortedKeysS(visited) {
+				for _, mm := range c12TokenRE.FindAllStringSubmatch(str, -1) {
+					dim := strings.TrimPrefix(mm[1], ".")
+					if _, ok := perm[dim]; !ok {
+						c.res.Fail(core.OracleFailure{What: "a token names a dimension the permutation lacks (" + mm[0] + "), but the step was interpolated without error", Input: desc, Got: firstDiff(vl.Enc(after), vl.Enc(before))})
+					}
+				}
+			}
+		}
 		switch {
 		case mp.collision:
 			c.res.Hist("step.oracle.skipped-collision")
@@ -322,3 +358,7 @@ func c12StepLevel(c *ctx, rng *core.Rand, _ []*core.Session, n int) error {
 	}
 	return nil
 }
+
+// c12TokenRE: the documented token grammar (the literal of interpolate_matrix.go, restated here as the
+// specification; the regenerated literal is compared with the Lean matcher by C12_regexp_literal).
+var c12TokenRE = regexp.MustCompile(`\{\{\s*matrix(\.[\w\-\.]+)?\s*\}\}`)
